@@ -912,6 +912,105 @@ fn run_roundtrip(r: &mut Rng, n: u64) {
     }
 }
 
+
+// ---- less-travelled public entry points: each must agree with the main one it is a variant of ----
+// One line per case: id, "api", group, failed equivalences (comma separated, empty = all hold), short description.
+fn run_api(r: &mut Rng, n: u64, group: &str) {
+    for i in 0..n {
+        let mut failed: Vec<String> = vec![]; let mut descr = String::new();
+        let res = catch_unwind(AssertUnwindSafe(|| {
+            let mut failed: Vec<String> = vec![]; let mut chk = |name: &str, ok: bool| { if !ok { failed.push(name.to_string()); } };
+            let descr;
+            match group {
+                "tokens" => {   // C04: get_token / tokens / counts / Token accessors tell one story
+                    let sm = gen_map(r, false); descr = map_in(&sm);
+                    let toks: Vec<sourcemap::Token> = sm.tokens().collect();
+                    chk("get_token_count", sm.get_token_count() as usize == toks.len());
+                    chk("get_token(i)=iter[i]", toks.iter().enumerate().all(|(k, t)| sm.get_token(k).map(|x| x.get_raw_token()) == Some(t.get_raw_token())) && sm.get_token(toks.len()).is_none());
+                    chk("non-decreasing", toks.windows(2).all(|w| w[0].get_dst() <= w[1].get_dst()));
+                    chk("get_dst", toks.iter().all(|t| t.get_dst() == (t.get_dst_line(), t.get_dst_col()) && t.get_src() == (t.get_src_line(), t.get_src_col())));
+                    chk("has_source/has_name", toks.iter().all(|t| t.has_source() == t.get_source().is_some() && (t.has_name() == t.get_name().is_some()) && t.has_source() == (t.get_src_id() != !0)));
+                    chk("to_tuple", toks.iter().all(|t| t.to_tuple() == (t.get_source().unwrap_or(""), t.get_src_line(), t.get_src_col(), t.get_name())));
+                    chk("get_source(src_id)", toks.iter().all(|t| t.get_source() == (if t.get_src_id() == !0 { None } else { sm.get_source(t.get_src_id()) }) && t.get_name() == (if t.get_name_id() == !0 { None } else { sm.get_name(t.get_name_id()) })));
+                    chk("names()/sources()", sm.names().count() as u32 == sm.get_name_count() && sm.sources().count() as u32 == sm.get_source_count() && sm.has_names() == (sm.get_name_count() > 0)
+                        && sm.sources().enumerate().all(|(k, x)| Some(x) == sm.get_source(k as u32)) && sm.names().enumerate().all(|(k, x)| Some(x) == sm.get_name(k as u32)));
+                    chk("source_contents()", sm.source_contents().enumerate().all(|(k, x)| x == sm.get_source_contents(k as u32)));
+                    // a lookup at a token's own position finds a token at that position: the first one
+                    chk("lookup at token", toks.iter().all(|t| { let (l, c) = t.get_dst(); match sm.lookup_token(l, c) { Some(f) => f.get_dst() == (l, c) && Some(f.get_raw_token()) == toks.iter().find(|x| x.get_dst() == (l, c)).map(|x| x.get_raw_token()), None => false } }));
+                    let mut it = sm.tokens(); if let Some(t) = toks.last() { let (l, c) = t.get_dst(); chk("seek", it.seek(l, c) && it.next().map(|x| x.get_dst() > (l, c) || x.get_dst() == (l, c)).unwrap_or(true)); }
+                }
+                "rewrite" => {  // C09 / C08: remove_names, flatten_and_rewrite
+                    let sm = gen_map(r, false); descr = map_in(&sm);
+                    let mut nn = sm.clone(); nn.remove_names();
+                    chk("remove_names", nn.get_name_count() == 0 && nn.tokens().all(|t| t.get_name().is_none()) && nn.tokens().zip(sm.tokens()).all(|(a, b)| a.get_dst() == b.get_dst() && a.get_src() == b.get_src() && a.get_source() == b.get_source() && a.is_range() == b.is_range()) && nn.get_token_count() == sm.get_token_count());
+                    let (secs, _d, _e) = gen_sections(r, 1, 0); let idx = sourcemap::SourceMapIndex::new(Some("f".into()), secs);
+                    for opts in [sourcemap::RewriteOptions::default(), sourcemap::RewriteOptions { with_names: false, with_source_contents: false, strip_prefixes: &["/abs"], ..Default::default() }] {
+                        let a = idx.clone().flatten_and_rewrite(&opts).map(|m| map_obs(&m)).map_err(|e| err_name(&e)); let b = idx.flatten().and_then(|f| f.rewrite(&opts)).map(|m| map_obs(&m)).map_err(|e| err_name(&e));
+                        chk("flatten_and_rewrite", a == b); }
+                    // rewriting twice changes nothing more
+                    let once = sm.clone().rewrite(&sourcemap::RewriteOptions::default()).map(|m| map_obs(&m)).ok(); let twice = sm.clone().rewrite(&sourcemap::RewriteOptions::default()).and_then(|m| m.rewrite(&sourcemap::RewriteOptions::default())).map(|m| map_obs(&m)).ok();
+                    chk("rewrite idempotent", once == twice && once.is_some());
+                }
+                "reader" => {   // C12: every from_reader / decode(reader) variant agrees with its slice twin
+                    let dm: sourcemap::DecodedMap = match r.below(3) { 0 => sourcemap::DecodedMap::Index(gen_index(r, 1)), 1 => sourcemap::decode_slice(&gen_hermes_doc(r)).unwrap(), _ => sourcemap::DecodedMap::Regular(gen_map(r, false)) };
+                    let small = match &dm { sourcemap::DecodedMap::Regular(m) => m.tokens().all(|t| t.get_dst_line() < 100_000), sourcemap::DecodedMap::Hermes(m) => m.tokens().all(|t| t.get_dst_line() < 100_000), _ => true };
+                    descr = format!("{:?}", std::mem::discriminant(&dm));
+                    if small {
+                        let mut bytes = vec![]; if r.below(3) == 0 { bytes.extend(b")]}'\n"); } let mut body = vec![]; if dm.to_writer(&mut body).is_err() { return (failed, descr); } bytes.extend(&body);
+                        let sizes: Vec<usize> = (0..1 + r.below(3)).map(|_| 1 + r.below(9) as usize).collect();
+                        let rd = || Chunked { data: &bytes, pos: 0, sizes: sizes.clone(), k: 0 };
+                        let show = |x: sourcemap::Result<sourcemap::DecodedMap>| x.map(|d| dm_full_obs(&d)).map_err(|_| ());
+                        chk("decode", show(sourcemap::decode(rd())) == show(sourcemap::decode_slice(&bytes)));
+                        chk("DecodedMap::from_reader", show(sourcemap::DecodedMap::from_reader(rd())) == show(sourcemap::decode_slice(&bytes)));
+                        chk("SourceMap::from_reader", sourcemap::SourceMap::from_reader(rd()).map(|m| sm_full_obs(&m)).map_err(|_| ()) == sourcemap::SourceMap::from_slice(&bytes).map(|m| sm_full_obs(&m)).map_err(|_| ()));
+                        chk("SourceMapIndex::from_reader", sourcemap::SourceMapIndex::from_reader(rd()).map(|m| dm_full_obs(&sourcemap::DecodedMap::Index(m))).map_err(|_| ()) == sourcemap::SourceMapIndex::from_slice(&bytes).map(|m| dm_full_obs(&sourcemap::DecodedMap::Index(m))).map_err(|_| ()));
+                        chk("from_slice kinds", match &dm { sourcemap::DecodedMap::Regular(_) => sourcemap::SourceMap::from_slice(&bytes).is_ok() && sourcemap::SourceMapIndex::from_slice(&bytes).is_err(), sourcemap::DecodedMap::Index(_) => sourcemap::SourceMapIndex::from_slice(&bytes).is_ok() && sourcemap::SourceMap::from_slice(&bytes).is_err(), _ => true });
+                        chk("is_sourcemap", sourcemap::is_sourcemap(rd()) && sourcemap::is_sourcemap_slice(&bytes));
+                    }
+                }
+                "builder" => {  // C13: add_token / has_source_contents / get_source / get_source_contents on the builder
+                    let sm = gen_map(r, false); descr = map_in(&sm);
+                    let with_name = r.below(2) == 0;
+                    let mut b1 = sourcemap::SourceMapBuilder::new(None); let mut b2 = sourcemap::SourceMapBuilder::new(None); let mut same_raw = true;
+                    for t in sm.tokens() { let x = b1.add_token(&t, with_name); let y = b2.add(t.get_dst_line(), t.get_dst_col(), t.get_src_line(), t.get_src_col(), t.get_source(), if with_name { t.get_name() } else { None }, t.is_range()); if x != y { same_raw = false; } }
+                    chk("add_token = add", same_raw && map_obs(&b1.into_sourcemap()) == map_obs(&b2.into_sourcemap()));
+                    let mut b = sourcemap::SourceMapBuilder::new(None); let a = b.add_source("a.js"); let c = b.add_source("c.js");
+                    chk("has_source_contents fresh", !b.has_source_contents(a) && !b.has_source_contents(c) && b.get_source_contents(a).is_none());
+                    b.set_source_contents(c, Some("text")); chk("has_source_contents set", b.has_source_contents(c) && !b.has_source_contents(a) && b.get_source_contents(c) == Some("text") && b.get_source(c) == Some("c.js") && b.get_source(7).is_none());
+                    b.set_source_contents(c, None); chk("has_source_contents cleared", !b.has_source_contents(c));
+                    b.set_source(a, "z.js"); chk("builder set_source", b.get_source(a) == Some("z.js"));
+                    b.set_file(Some("o.js")); b.set_source_root(Some("r")); chk("builder getters", b.get_file() == Some("o.js") && b.get_source_root() == Some("r"));
+                }
+                "view" => {     // C15: from_string, source(), lines through both constructors
+                    let al = ['a', '\u{e9}', '\u{1F44C}', '\n', '\r', 'b']; let len = r.below(12); let text: String = (0..len).map(|_| al[r.below(6) as usize]).collect(); descr = hex(text.as_bytes());
+                    let a = sourcemap::SourceView::new(text.clone().into()); let b = sourcemap::SourceView::from_string(text.clone());
+                    chk("from_string", a.source() == b.source() && a.source() == text && a.line_count() == b.line_count() && a.lines().collect::<Vec<_>>() == b.lines().collect::<Vec<_>>());
+                    chk("lines = get_line", a.lines().enumerate().all(|(k, l)| a.get_line(k as u32) == Some(l)) && a.get_line(a.line_count() as u32).is_none() && a.lines().count() == a.line_count());
+                    chk("slice of whole line", (0..a.line_count() as u32).all(|k| { let l = a.get_line(k).unwrap(); let n = l.encode_utf16().count() as u32; a.get_line_slice(k, 0, n) == Some(l) && a.get_line_slice(k, 0, n + 1).is_none() && a.get_line_slice(k, n, 0) == Some("") }));
+                }
+                _ => {          // "ram" (C20): parse_indexed_from_vec, module accessors
+                    use sourcemap::ram_bundle::*;
+                    let le = |x: u32| x.to_le_bytes(); let startup = b"SS".to_vec(); let mods: Vec<Option<Vec<u8>>> = (0..r.below(4)).map(|_| if r.below(3) == 0 { None } else { Some((0..r.below(4)).map(|_| [b'a', 0xfe, b'\n', 0][r.below(4) as usize]).collect()) }).collect();
+                    let mut v = vec![]; v.extend(le(0xFB0BD1E5)); v.extend(le(mods.len() as u32)); v.extend(le(2)); let mut off = 2u32; let mut data = vec![];
+                    for m in &mods { match m { None => { v.extend(le(0)); v.extend(le(0)); } Some(d) => { v.extend(le(off)); v.extend(le(d.len() as u32 + 1)); data.extend(d); data.push(0); off += d.len() as u32 + 1; } } }
+                    v.extend(&startup); v.extend(&data); if r.below(4) == 0 { let k = r.below(v.len() as u64 + 1) as usize; v.truncate(k); }
+                    descr = hex(&v);
+                    let a = RamBundle::parse_indexed_from_slice(&v); let b = RamBundle::parse_indexed_from_vec(v.clone());
+                    chk("from_vec = from_slice", a.is_ok() == b.is_ok());
+                    if let (Ok(a), Ok(b)) = (a, b) {
+                        chk("same answers", a.module_count() == b.module_count() && a.startup_code().ok() == b.startup_code().ok() && (0..6).all(|k| a.get_module(k).map(|m| m.map(|x| x.data().to_vec())).ok() == b.get_module(k).map(|m| m.map(|x| x.data().to_vec())).ok()));
+                        chk("bundle_type", a.bundle_type() == RamBundleType::Indexed);
+                        chk("module id/source_view", a.iter_modules().take(8).all(|m| match m { Ok(m) => a.get_module(m.id()).ok().flatten().map(|x| x.data() == m.data()).unwrap_or(false) && match std::str::from_utf8(m.data()) { Ok(t) => m.source_view().map(|sv| sv.source() == t).unwrap_or(false), Err(_) => m.source_view().is_err() }, Err(_) => true }));
+                    }
+                }
+            }
+            (failed, descr)
+        }));
+        match res { Ok((f, d)) => { failed = f; descr = d; } Err(_) => failed.push("panic".into()) }
+        println!("a{}\tapi\t{}\t{}\t{}", i, group, failed.join(","), descr.chars().take(600).collect::<String>());
+    }
+}
+
 // ---- C04: tokens are ordered whatever the construction order ----
 fn run_order(r: &mut Rng, n: u64) {
     for i in 0..n {
@@ -969,6 +1068,12 @@ fn main() {
         "codec" => run_codec(&mut r, n, false),
         "codec_ranges" => run_codec(&mut r, n, true),
         "keys" => run_keys(&mut r, n),
+        "api_tokens" => run_api(&mut r, n, "tokens"),
+        "api_rewrite" => run_api(&mut r, n, "rewrite"),
+        "api_reader" => run_api(&mut r, n, "reader"),
+        "api_builder" => run_api(&mut r, n, "builder"),
+        "api_view" => run_api(&mut r, n, "view"),
+        "api_ram" => run_api(&mut r, n, "ram"),
         "roundtrip" => run_roundtrip(&mut r, n),
         "lookup" => run_lookup(&mut r, n),
         "order" => run_order(&mut r, n),
